@@ -148,7 +148,7 @@ PROPS = {
     "C10": dict(
         module="OrbitModel.Properties.C10",
         theorems=["Orbit.C10.parent_walk_tied_to_go_text", "Orbit.C10.sync_order_tied_to_go_text", "Orbit.C10.rejected_never_block", "Orbit.C10.valid_entries_of_a_mixed_batch_are_merged", "Orbit.C10.refused_heads_are_never_fetched",
-                  "Orbit.C10.refused_head_was_fetched_before_the_fix", "Orbit.C10.pinned_tree_blocks_valid"],
+                  "Orbit.C10.refused_head_was_fetched_before_the_fix", "Orbit.C10.pinned_tree_blocks_valid", "Orbit.C10.fetched_batch_steps_tied_to_go_text"],
         families=[("forge", 150, 4000, 10)],
         corr_fields={"values", "heads", "idx", "len", "sync", "loadq", "rev"},
         nontrivial=lambda lines: any(l.startswith("op inject") and "," in l.split("heads=")[1].split()[0] for l in lines if "heads=" in l) or any("extra=" in l for l in lines),
@@ -224,7 +224,7 @@ PROPS = {
         module="OrbitModel.Properties.C15",
         theorems=["Orbit.C15.effective_limit", "Orbit.C15.trim_panics_iff", "Orbit.C15.trim_keeps_newest",
                   "Orbit.C15.load_lists_newest_n_of_a_chain", "Orbit.C15.load_one_head_never_panics", "Orbit.C15.estimated_trim_panicked_on_a_log_with_holes_before_the_fix", "Orbit.C15.the_second_join_of_load_is_a_trim", "Orbit.C15.load_more_lists_everything_fetched", "Orbit.C15.load_more_loaded_nothing_below_what_was_held_before_the_fix",
-                  "Orbit.C15.limit_normalisation_tied_to_go_text", "Orbit.C15.pinned_tree_panicked_or_emptied", "Orbit.C15.load_steps_tied_to_go_text", "Orbit.C15.limited_load_fetches_until_the_limit_is_met", "Orbit.C15.filtered_entry_counted_against_the_limit_before_the_fix"],
+                  "Orbit.C15.limit_normalisation_tied_to_go_text", "Orbit.C15.pinned_tree_panicked_or_emptied", "Orbit.C15.load_steps_tied_to_go_text", "Orbit.C15.limited_load_fetches_until_the_limit_is_met", "Orbit.C15.filtered_entry_counted_against_the_limit_before_the_fix", "Orbit.C15.limited_load_with_exclusions_fetches_until_the_limit_is_met"],
         families=[("limit", 80, 2500, 12)],
         corr_fields={"values", "heads", "idx", "len", "load", "local", "remote"},
         nontrivial=lambda lines: any(l.startswith("op restart ") and len(l.split()) > 3 for l in lines),
@@ -290,11 +290,11 @@ MANIFEST_TEXT = {
         note="Trusted: Lean kernel + standard axioms; the JSON codec of one entry is a parameter with a left inverse (sampled by the harness); the unixfs file layer is a fake that stores files whole; the fetcher's contract (it returns the ancestry of the heads it is given, from blocks the node holds) is a hypothesis of the fetching-loader theorems - a snapshot is NOT self-contained in this port: a node without the blocks needs the network to load it.",
         technique="Lean 4 proof (codec round-trip by induction; rebuilt log joins to the same entries/order/heads) with differential correspondence on real save/load"),
     "C14": dict(
-        text="Kernel-checked theorems over a segment-list model of Go's path.Join/Clean: the address answered names the manifest the inputs were hashed into; with an injective manifest hash different (name, type, access controller) give different addresses; every answered address prints and parses back to itself; the accepted names are characterised exactly; over a model of Create/Open written in the order of the Go code: creating over an existing local database is refused unless overwrite, a local-only open of an unknown database is refused, an open yields the recorded type and write list whatever options are passed, and what Create returned is what every later Open returns on this and on any other instance. The pinned tree answered another database's address for a climbing name (decide-checked witness, replayed on the real code before the fix: commit). Whatever string Open accepts as an address prints as an address of the same database (address.Parse refuses a path that climbs out of its root: finding F28, fix: commit, with a decide-checked witness of the old split). The address family compares DetermineAddress/Create/Open/Parse on 2-3 real peers with the model over adversarial names, store types, write lists and user-supplied address spellings. Behind the hash of a manifest only the name recorded in it opens (Open model with the name test: a misnamed address is refused whatever the options, the address Create returns always passes; finding F52, fix: commit - any path behind a manifest hash opened as a database of its own; the driver requires the address of every opened store to be the address its root's manifest was created for). A database obtained through Open exists locally from then on (proved on the Open model: a later local-only Open succeeds with the same type and write list; finding F53, fix: commit - only Create used to record it), and Create/Open no longer write into the caller's options (finding F54, fix: commit - 'open or create' left Overwrite=true behind; `reuseopts` step in the address family; F59, fix: commit - DetermineAddress and the typed front ends still did: one access controller parameters value handed to two peers gave the second database the first peer's id as its default writer, and options that had been through Log() made a plain Open create; `reuseac`, `reusefront` steps).",
+        text="Kernel-checked theorems over a segment-list model of Go's path.Join/Clean: the address answered names the manifest the inputs were hashed into; with an injective manifest hash different (name, type, access controller) give different addresses; every answered address prints and parses back to itself; the accepted names are characterised exactly; over a model of Create/Open written in the order of the Go code: creating over an existing local database is refused unless overwrite, a local-only open of an unknown database is refused, an open yields the recorded type and write list whatever options are passed, and what Create returned is what every later Open returns on this and on any other instance. The pinned tree answered another database's address for a climbing name (decide-checked witness, replayed on the real code before the fix: commit). Whatever string Open accepts as an address prints as an address of the same database (address.Parse refuses a path that climbs out of its root: finding F28, fix: commit, with a decide-checked witness of the old split). The address family compares DetermineAddress/Create/Open/Parse on 2-3 real peers with the model over adversarial names, store types, write lists and user-supplied address spellings. Behind the hash of a manifest only the name recorded in it opens (Open model with the name test: a misnamed address is refused whatever the options, the address Create returns always passes; finding F52, fix: commit - any path behind a manifest hash opened as a database of its own; the driver requires the address of every opened store to be the address its root's manifest was created for). A database obtained through Open exists locally from then on (proved on the Open model: a later local-only Open succeeds with the same type and write list; finding F53, fix: commit - only Create used to record it), and Create/Open no longer write into the caller's options (finding F54, fix: commit - 'open or create' left Overwrite=true behind; `reuseopts` step in the address family; F59, fix: commit - DetermineAddress and the typed front ends still did: one access controller parameters value handed to two peers gave the second database the first peer's id as its default writer, and options that had been through Log() made a plain Open create; `reuseac`, `reusefront` steps; F68, fix: commit - the copy is made only of the library's own parameters type: parameters of a type of the application reach their access controller as they are; reviewer's test).",
         note="Trusted: Lean kernel + standard axioms; injectivity of the manifest CID (hash + dag-cbor) is a hypothesis; the Create/Open model is hand-written (its abstractions are listed at the top of Model/OpenCreate.lean) and run against the real instance on every create/open of the address family; only the default ipfs access controller is modelled.",
         technique="Lean 4 proof (path cleaning lemmas, parse/print inverse, injectivity) with differential correspondence over adversarial names"),
     "C15": dict(
-        text="Kernel-checked theorems: the effective limit (n <= 0 falls back to MaxHistory, non-positive means all); Join(size) panics exactly when size exceeds the length and otherwise keeps the newest size entries in order; for EVERY chain length and EVERY limit, Load(n) on a fresh store with one cached head lists exactly the newest min(n,T) entries oldest first (all for n <= 0) even when the fetcher over-fetches; loading one head never panics, for EVERY log the store may hold (closed or with holes, fully or partially loaded), every fetched log and every amount: the merge asks for no trim and the trim is only asked for once the listing is longer than the amount (finding F30, fix: commit - the estimate-based trim panicked on logs with holes: decide-checked witness, reproduced by Load(n) on an open, partially loaded store). The pinned tree's panic (n > total) and emptied log (n = 0) are decide-checked and were replayed on the real store before the fix: commit. The limit family loads real multi-writer logs with every boundary limit, lets partially loaded stores replicate, write and load again ('load more'), and checks count, order, newest and most-recent-n on the listing — after a 'load more' too: an unlimited Load of a cached head into ANY log satisfying the log invariant lists what the log held plus everything fetched (proved; finding F36, fix: commit — Join, handed the whole fetched log, stopped at the held head and merged nothing below it: decide-checked witness, replayed on the real store). Entries Load leaves out do not count against the limit: the refetch loop ends, for every fetcher that returns at most what it is asked for, on a fetch that keeps at least n entries or is the whole log (proved; finding F57, fix: commit - one fetch of length n kept fewer: decide-checked witness; the limit family adds a hand-made entry whose parent belongs to another log). The refetch loop does not walk through a foreign log again and reports an entry once per Load (finding F63, fix: commit - found by a reviewer of the repairs, demonstrated by its test under corpus/C15: the harness's foreign logs are too short to show the quadratic re-reporting).",
+        text="Kernel-checked theorems: the effective limit (n <= 0 falls back to MaxHistory, non-positive means all); Join(size) panics exactly when size exceeds the length and otherwise keeps the newest size entries in order; for EVERY chain length and EVERY limit, Load(n) on a fresh store with one cached head lists exactly the newest min(n,T) entries oldest first (all for n <= 0) even when the fetcher over-fetches; loading one head never panics, for EVERY log the store may hold (closed or with holes, fully or partially loaded), every fetched log and every amount: the merge asks for no trim and the trim is only asked for once the listing is longer than the amount (finding F30, fix: commit - the estimate-based trim panicked on logs with holes: decide-checked witness, reproduced by Load(n) on an open, partially loaded store). The pinned tree's panic (n > total) and emptied log (n = 0) are decide-checked and were replayed on the real store before the fix: commit. The limit family loads real multi-writer logs with every boundary limit, lets partially loaded stores replicate, write and load again ('load more'), and checks count, order, newest and most-recent-n on the listing — after a 'load more' too: an unlimited Load of a cached head into ANY log satisfying the log invariant lists what the log held plus everything fetched (proved; finding F36, fix: commit — Join, handed the whole fetched log, stopped at the held head and merged nothing below it: decide-checked witness, replayed on the real store). Entries Load leaves out do not count against the limit: the refetch loop ends, for every fetcher that returns at most what it is asked for, on a fetch that keeps at least n entries or is the whole log (proved; finding F57, fix: commit - one fetch of length n kept fewer: decide-checked witness; the limit family adds a hand-made entry whose parent belongs to another log). The refetch loop does not walk through a foreign log again and reports an entry once per Load (termination and 'enough' proved for a fetcher that changes from round to round and a limit that at least doubles: F67, fix: commit - growing by what was left out alone read a run of refused entries quadratically; finding F63, fix: commit - found by a reviewer of the repairs, demonstrated by its test under corpus/C15: the harness's foreign logs are too short to show the quadratic re-reporting).",
         note="Partial: for several cached heads the count/order/newest statement is checked on the implementation and on decide-checked instances, not proved in general; the bounded fetcher is a parameter with a stated contract.",
         technique="Lean 4 proof (trim/Join size lemmas, chain induction) with differential correspondence over boundary limits"),
     "C16": dict(
@@ -314,7 +314,7 @@ MANIFEST_TEXT = {
         note="Trusted: Lean kernel + standard axioms; the bus model (broadcast to every listener; which listeners filter on what) is hand-written from base_store.go and validated by the multidb family; runtime delivery timing of the libp2p eventbus is sampled, not proved.",
         technique="Lean 4 proof (listener filter case analysis over a broadcast model) with differential correspondence on multi-database instances"),
     "C10": dict(
-        text="Kernel-checked theorems: for every cancellation-free history mixing rejected and foreign heads with valid ones in any position and any fetch order, re-announcing heads and running the replicator to quiescence lists every accepted reachable entry and no rejected one; a mixed batch merges every acceptable single-entry log whatever else it contains; a head the access controller refuses is never handed to the replicator (so a non-writer cannot start a fetch that never ends — finding F18, repaired). Pinned-tree witnesses (batch aborted, valid entries never refetched) are decide-checked and were replayed on the real store before the fix: commit. The forge family checks on the real stores that after an honest re-announcement every acknowledged write is listed everywhere. A parent that is an entry-shaped block without a clock is a failed fetch, not a dead process (finding F44, fix: commit; `badparent=noclock` behind a colluding writer's entry in the forge family: the entry arrives, later honest writes replicate, the replica restarts). An ERROR while checking an entry's address (the write of its canonical form failed) is an error, not the verdict 'wrong address': the entry stays to be retried (finding F64, fix: commit - found by a reviewer of the repairs, demonstrated by its test under corpus/C10).",
+        text="Kernel-checked theorems: for every cancellation-free history mixing rejected and foreign heads with valid ones in any position and any fetch order, re-announcing heads and running the replicator to quiescence lists every accepted reachable entry and no rejected one; a mixed batch merges every acceptable single-entry log whatever else it contains; a head the access controller refuses is never handed to the replicator (so a non-writer cannot start a fetch that never ends — finding F18, repaired). Pinned-tree witnesses (batch aborted, valid entries never refetched) are decide-checked and were replayed on the real store before the fix: commit. The forge family checks on the real stores that after an honest re-announcement every acknowledged write is listed everywhere. A parent that is an entry-shaped block without a clock is a failed fetch, not a dead process (finding F44, fix: commit; `badparent=noclock` behind a colluding writer's entry in the forge family: the entry arrives, later honest writes replicate, the replica restarts). An ERROR while checking an entry's address (the write of its canonical form failed) is an error, not the verdict 'wrong address': the entry stays to be retried (finding F64, fix: commit - found by a reviewer of the repairs). That repair in turn let one block without an encoding - an entry-shaped block of version 0, which decodes and cannot be written again - fail every Load and stay in the replicator's retry set for good (finding F66, fix: commit - found by a reviewer of the follow-ups; the address is now computed without touching the node, so the check cannot fail for a reason outside the entry; `reencode how=v0` behind a colluding writer's entry in the forge family, live, after a restart and through a snapshot; the steps of processHash and of Load's filter are regenerated from the Go text on every run).",
         note="Liveness is proved for the canonical fair scheduler (drain) with explicit fuel, safety (closure invariant, 'at rest means complete') for every schedule; the replicator model is hand-written and tied end-to-end (its bookkeeping counters are printed, not yet replayed step by step).",
         technique="Lean 4 proof (transition-system invariants + termination measure) with differential correspondence on adversarial announcements"),
     "C11": dict(
@@ -322,7 +322,7 @@ MANIFEST_TEXT = {
         note="Known finding K1 (listed, exhibited by the corpus on every run): a request racing with a still-unwinding pre-cancelled request can complete without the shared hash; the next request brings it. Known finding K2 (listed, exhibited by the corpus on every run): the liveness theorems assume that every fetch under a live context returns; a retried fetch of a block nobody serves does not, and while it hangs what later requests fetched stays in the replicator's buffer (kernel-checked on the model: no other move delivers it; replayed on the real replicator). Goroutine steps are modelled as atomic under the replicator mutex; timeouts are cancellations at a point.",
         technique="Lean 4 proof (inductive invariant over all schedules, potential-function termination) with hook/gate-driven differential harness"),
     "C12": dict(
-        text="Kernel-checked theorems from the decode result onward: no decoded message (any mix of null, empty, partial heads) makes Sync panic, only complete heads are loaded, the outcome for a message does not depend on what preceded it; no 64-bit length prefix makes the frame reader panic and accepted lengths are within the limit, with the guard regenerated from the Go text on every run. A PUTALL batch with `null` members (a validly signed entry any writer can publish) is indexed as the batch of its real members and never dereferenced (finding F25, fix: commit; accessor tied to the Go text). The pinned tree is refuted by decide-checked witnesses replayed on the real code before the fix: commits. The harness delivers structurally enumerated malformed messages on the topic and the direct channel and raw frames to the real stream handler; a panic kills the harness process and is attributed to the running scenario. An event log lists around an entry whose payload is not an operation (finding F48, fix: commit - every listing used to end, silently, at such an entry; the garbage family injects one into event logs and queries; the filter is regenerated from the Go text). The listing is proved to be exactly the operations on the asked side of the bound's POSITION, for every log and every bound, an operation or not (review of that repair, fix: commit - the first version filtered before it looked the bound up, so that a cursor on such an entry started the window at the first entry; query model and window predicate of the driver now take the whole log and which entries are operations).",
+        text="Kernel-checked theorems from the decode result onward: no decoded message (any mix of null, empty, partial heads) makes Sync panic, only complete heads are loaded, the outcome for a message does not depend on what preceded it; no 64-bit length prefix makes the frame reader panic and accepted lengths are within the limit, with the guard regenerated from the Go text on every run. A PUTALL batch with `null` members (a validly signed entry any writer can publish) is indexed as the batch of its real members and never dereferenced (finding F25, fix: commit; accessor tied to the Go text). The pinned tree is refuted by decide-checked witnesses replayed on the real code before the fix: commits. The harness delivers structurally enumerated malformed messages on the topic and the direct channel and raw frames to the real stream handler; a panic kills the harness process and is attributed to the running scenario. An event log lists around an entry whose payload is not an operation (finding F48, fix: commit - every listing used to end, silently, at such an entry; the garbage family injects one into event logs and queries; the filter is regenerated from the Go text). The listing is proved to be exactly the operations on the asked side of the bound's POSITION, for every log and every bound, an operation or not (review of that repair, fix: commit - the first version filtered before it looked the bound up, so that a cursor on such an entry started the window at the first entry; query model and window predicate of the driver now take the whole log and which entries are operations). Get of an entry that is not an operation fails and says so (finding F69, fix: commit - it answered with the next operation of the log; `C12/get` predicate).",
         note="The bytes -> structure step of encoding/json / CBOR is observed, not modelled (partial there); trusted: Lean kernel + standard axioms, the extractor, the hand-written decode model validated by the garbage family.",
         technique="Lean 4 proof (total outcome functions with explicit panic; BitVec frame guard tied by translator) with crash-attributing differential harness"),
     "C20": dict(
